@@ -48,6 +48,10 @@ func main() {
 		os.Exit(cmdCheck(os.Args[2:]))
 	case "replay":
 		os.Exit(cmdReplay(os.Args[2:]))
+	case "layouts":
+		os.Exit(cmdLayouts(os.Args[2:]))
+	case "layout":
+		os.Exit(cmdLayout(os.Args[2:]))
 	case "selftest":
 		os.Exit(cmdSelftest(os.Args[2:]))
 	case "list":
